@@ -287,15 +287,16 @@ def search(rng, bad_cases):
 
 ENABLED = True
 LEVEL = "proof"
-LEVEL_TEXT = ("Theorems in coq/theories/Properties/C34.v, all unbounded: unescape (escape s) = Ok s for every byte string; the reader "
-              "of_tree returns d on every infoset that represents d in the D-Bus introspection format; the writer's infoset represents "
-              "d and of_tree (to_tree d) = Ok d for every document in which every optional (node name, arg name, arg direction) is "
-              "present; end to end, from_str (to_writer d) = Ok d under the tokenizer contract. The full statement is REFUTED: an absent "
-              "optional is written as an empty attribute and comes back as Some \"\" or fails to parse (known finding none_option), "
-              "confirmed on the real code. The model is tied to zbus_xml by differential runs comparing the parsed value, the written "
-              "text byte for byte and its independently parsed infoset.")
-LEVEL_NOTE = ("partial: the round trip is proved for documents without absent optionals and refuted otherwise (known finding none_option). "
-              "Trusted / assumed: Coq kernel; the hand-written model of the serde/quick-xml mapping; quick-xml's tokenizer by contract "
-              "(tokenize (print t) = Some t on printable trees); zvariant::Signature parse/Display round trip (C06) as a hypothesis; "
-              "C10's name validators; the hxml harness with its own XML renderer and reader.")
-PARTIAL = ["C34_roundtrip_partial", "C34_none_option_refuted"]
+LEVEL_TEXT = ("Theorems in coq/theories/Properties/C34.v, all unbounded and at full strength: unescape (escape s) = Ok s for every byte "
+              "string; the reader of_tree returns d on every infoset that represents d in the D-Bus introspection format; the writer's "
+              "infoset represents d, for every document; hence of_tree (to_tree d) = Ok d for every document the types allow "
+              "(C34_roundtrip = the full statement), and end to end from_str (to_writer d) = Ok d under the tokenizer contract; every "
+              "document the reader returns is of that kind. The former finding none_option (absent optionals written as empty "
+              "attributes) was fixed in /repo commit 34e4ce52 and the model follows the repaired code; its witness now passes. The model "
+              "is tied to zbus_xml by differential runs comparing the parsed value, the written text byte for byte and its independently "
+              "parsed infoset.")
+LEVEL_NOTE = ("full statement proved for the model; no known-deviation class is left. Trusted / assumed: Coq kernel; the hand-written model "
+              "of the serde/quick-xml mapping; quick-xml's tokenizer by contract (tokenize (print t) = Some t on printable trees) for the "
+              "text-level theorem; zvariant::Signature parse/Display round trip (C06) as a hypothesis; C10's name validators; the hxml "
+              "harness with its own XML renderer and reader; recursion depth of the (de)serializers not modelled.")
+PARTIAL = []
